@@ -82,3 +82,15 @@ claim('C10',
       'composition. Inverse variances are exact squares so that sqrt stays rational; scipy banded Cholesky pair is a contract stub '
       '(see C09); floats are exact reals; sqrt(negative) is NaN comparing False as in numpy. n > 6, x2 fits, groupbadpix/maxrej/grow not covered.',
       'DESIGN.md 4/C10')
+claim('C17',
+      'djs_reject, djs_maskinterp(1), aesthetics, djs_median(boundary=reflect) and skymask are executed with their array CONTENTS symbolic: '
+      'data / model / sigma (or invvar = s^2) / limits / masks for djs_reject; samples, masks and x positions for the interpolation; '
+      'flux and the zero pattern of the inverse variance for aesthetics; the or-mask as int16/int32/int64/uint64 bit-vectors for skymask '
+      '(numpy promotion rules reproduced). Every output element is proved equal to the rule of the statement (rejected exactly = masked out '
+      'or beyond a limit or within `grow` of such a point; completion flag <=> mask unchanged; only masked samples change and become the '
+      'linear interpolation between nearest good neighbours; flux changes only where ivar is zero; reflecting median = symmetric reflection; '
+      'ivar zeroed exactly within ngrow pixels of a BADSKYCHI/REDMONSTER bit) for all contents at once.',
+      'Sizes: djs_reject n<=4 (6 thorough) with all mask combinations only for n=2 (3 thorough); maskinterp 1-D n<=4 (6), with x n<=3 (4), '
+      '2-D up to 3x3, 3-D 2x2x2(3); aesthetics n<=3 (5), 4 methods (not damp); skymask up to 2x3 (2x4, 1x5). Floats exact reals; sigma, limits >= 0; '
+      'numpy.interp and scipy medfilt by their definitions; axis of djs_maskinterp counted IDL-style as the code does; djs_reject without '
+      'sigma/invvar and its maxrej/group options not covered.', 'DESIGN.md 4/C17')
